@@ -467,3 +467,10 @@ func TestC20_ListedNamesStayInDirectory(t *testing.T) {
 		t.Error("a file outside the .dsc's directory was deleted")
 	}
 }
+
+func TestC05_StageNegationAndEmptyCPU(t *testing.T) {
+	roundTrip(t, "foo [gnu-linux- a]")
+	if d, err := dependency.Parse("foo <cross!> | bar [!i386]"); err == nil {
+		t.Errorf("a '!' after a profile name is accepted: %v", d)
+	}
+}
